@@ -201,6 +201,54 @@ def _file_family(fmt, v):
             shutil.rmtree(tmp, ignore_errors=True)
 
 
+ISOMERS = ["c-C3H2", "l-C3H", "c-C3H3+", "l-C3H2", "oH2", "pH2D+", "H2*", "Mg+"]  # names that begin with a pseudo-element token
+
+
+def _labelled_family(fmt, v):
+    """species whose names begin with a pseudo-element label (isomers, ortho/para, excited) are species, not markers"""
+    a, b, c = prelude.concrete(v)
+    with prelude.NoTracing():
+        r = _base(fmt)
+        r["reactants"] = [ISOMERS[a % 8], ["H", "H3+", "e-"][c % 3]][: MAXR[fmt]]
+        r["products"] = [ISOMERS[b % 8], "H2"]
+        if c >= 4 and MARKERS[fmt] and MAXR[fmt] >= 3:
+            r["reactants"].append(MARKERS[fmt][0])
+        reac, line = _decode(fmt, r)
+        return reac is not None and _check(fmt, r, CODES[fmt][2][1] if fmt != "uclchem" else 100, reac)
+
+
+def kida_labelled(v: List[int]) -> bool:
+    """
+    pre: len(v) == 3 and all(0 <= x < 8 for x in v)
+    post: _ == True
+    """
+    return _labelled_family("kida", v)
+
+
+def umist_labelled(v: List[int]) -> bool:
+    """
+    pre: len(v) == 3 and all(0 <= x < 8 for x in v)
+    post: _ == True
+    """
+    return _labelled_family("umist", v)
+
+
+def naunet_labelled(v: List[int]) -> bool:
+    """
+    pre: len(v) == 3 and all(0 <= x < 8 for x in v)
+    post: _ == True
+    """
+    return _labelled_family("naunet", v)
+
+
+def krome_labelled(v: List[int]) -> bool:
+    """
+    pre: len(v) == 3 and all(0 <= x < 8 for x in v)
+    post: _ == True
+    """
+    return _labelled_family("krome", v)
+
+
 def kida_reactant(v: List[int]) -> bool:
     """
     pre: len(v) == 3 and all(0 <= x < 8 for x in v)
